@@ -939,6 +939,56 @@ def alphabets():
     return {"mv": ([], mv), "dense": ([dn[0]], dn), "irr": ([ir[0]], ir)}
 
 
+
+def normalization_tie(rep):
+    """Value-level tie of "standardised sampling points track the sampling points" for irregular data: the implementation's
+    `argvals_stand` — of freshly built objects, of subsets, of concatenations — against Model/Normalize.v (`norm_irr`, the
+    affine map with the object's own global minimum and maximum) evaluated in Q on the same sampling points."""
+    from FDApy.representation.functional_data import IrregularFunctionalData
+    from harness import fd
+    rng = np.random.default_rng([C.seed(), 11, 29])
+    run = C.CoqRun("C11", "From FDAV Require Import Model.Normalize Tie.C11Norm.", shard=4)
+    todo = []
+
+    def lit(rows):
+        return "[" + "; ".join(C.qlist(r) for r in rows) + "]"
+
+    def add(label, obj, info):
+        keys = list(obj.argvals.keys())
+        pts = [np.asarray(obj.argvals[k]["input_dim_0"], float) for k in keys]
+        st = [np.asarray(obj.argvals_stand[k]["input_dim_0"], float) for k in keys]
+        t = run.add(f"norm_ok (1#1000000000000) {lit(pts)} {lit(st)}")
+        todo.append((t, label, {**info, "points": [p.tolist() for p in pts], "argvals_stand": [s_.tolist() for s_ in st]}))
+    for rnd in range(6):
+        n = int(rng.integers(3, 7))
+        lo = float(np.round(rng.uniform(-3, 3) * 8) / 8)
+        ts = []
+        for k in range(n):
+            m = int(rng.integers(2, 6))
+            ts.append(np.unique(np.round((lo + rng.uniform(0, 4, size=m) + 0.5 * k) * 64) / 64))
+        if any(len(t) < 2 for t in ts):
+            continue
+        xs = [np.round(rng.normal(size=len(t)) * 16) / 16 for t in ts]
+        parent = fd.irregular(ts, xs)
+        info = {"n_obs": n}
+        add("freshly built irregular dataset", parent, info)
+        inner = parent[1:n - 1] if n >= 4 else parent[1:2]
+        add("slice without the first and last observation", inner, info)
+        add("single observation by integer index", parent[int(rng.integers(0, n))], info)
+        add("array-indexed subset", parent[np.array(sorted(set(int(i) for i in rng.integers(0, n, size=2))))], info)
+        try:
+            add("concatenation of two subsets", IrregularFunctionalData.concatenate(parent[0:1], parent[1:2]), info)
+        except Exception:  # noqa: BLE001
+            pass            # relabelling of concatenated irregular data is C13's subject (F9c)
+    res = run.run()
+    for t, label, info in todo:
+        rep.case(("normalization", label, str(info["points"])), kind="normalization/" + label)
+        if not res[t]:
+            rep.disagreements_checked += 1
+            rep.violation(f"standardised sampling points of a {label} are not the affine image of ITS sampling points on [0, 1] "
+                          "(Model/Normalize.v norm_irr: global minimum and maximum of the object itself)", info)
+
+
 def run(rep, props, replay=None):
     quick = C.tier() == "quick"
     rng = np.random.default_rng([C.seed(), 11])
@@ -989,6 +1039,7 @@ def run(rep, props, replay=None):
         for lo in range(0, len(hs), 1500):
             process(rep, hs[lo:lo + 1500], f"exhaustive-{name}", quick, state)
     rep.extra["steps_compared"] = state["steps"]
+    normalization_tie(rep)
     rep.extra["histories_filtered"] = state["filtered"]
     rep.extra["disagreement_signatures"] = {"/".join(map(str, k)): v for k, v in state["sig_count"].items()}
     rep.notes.append("filtered = histories containing a remove() whose list scan would compare objects of different shapes (C12/F8), "
